@@ -60,7 +60,7 @@ func (pm *ProtocolManager) VerifSetAcceptTxs(on bool) {
 
 func (pm *ProtocolManager) VerifSynchronising() bool { return pm.downloader.Synchronising() }
 
-func (vp *VerifPeer) ID() string                      { return vp.p.id }
-func (vp *VerifPeer) Head() (common.Hash, *big.Int)    { return vp.p.Head() }
-func (vp *VerifPeer) KnowsBlock(h common.Hash) bool    { return vp.p.knownBlocks.Contains(h) }
-func (vp *VerifPeer) KnowsTx(h common.Hash) bool       { return vp.p.knownTxs.Contains(h) }
+func (vp *VerifPeer) ID() string                    { return vp.p.id }
+func (vp *VerifPeer) Head() (common.Hash, *big.Int) { return vp.p.Head() }
+func (vp *VerifPeer) KnowsBlock(h common.Hash) bool { return vp.p.knownBlocks.Contains(h) }
+func (vp *VerifPeer) KnowsTx(h common.Hash) bool    { return vp.p.knownTxs.Contains(h) }
